@@ -47,36 +47,98 @@ theorem targetLoop_applies (k : EKind) (mode : Nat) (t r : List Char)
       simp [targetLoop, hl, this, ih']
     · simp [targetLoop, hl, ih']
 
+/-! ### skipping a clause (`skipClause`) -/
+
+theorem skipClause_no_comma (a : List Char) (h : ',' ∉ a) : skipClause a = [] := by
+  induction a with
+  | nil => rfl
+  | cons c a ih =>
+    simp only [List.mem_cons, not_or] at h
+    have hc : ¬ c = ',' := fun hc => h.1 hc.symm
+    simp only [skipClause, if_neg hc, ih h.2]
+
+theorem skipClause_append (a r : List Char) (h : ',' ∉ a) : skipClause (a ++ r) = skipClause r := by
+  induction a with
+  | nil => rfl
+  | cons c a ih =>
+    simp only [List.mem_cons, not_or] at h
+    have hc : ¬ c = ',' := fun hc => h.1 hc.symm
+    simp only [List.cons_append, skipClause, if_neg hc, ih h.2]
+
+theorem skipClause_append_comma (a r : List Char) (h : ',' ∉ a) :
+    skipClause (a ++ ',' :: r) = r := by
+  rw [skipClause_append a _ h]; simp [skipClause]
+
+theorem skipClause_length_le (r : List Char) : (skipClause r).length ≤ r.length := by
+  induction r with
+  | nil => exact Nat.le_refl _
+  | cons c r ih =>
+    simp only [skipClause]
+    split
+    · simp
+    · simp only [List.length_cons]; omega
+
+theorem targetCh_no_comma (t : List Char) (ht : ∀ x ∈ t, isTargetCh x = true) : ',' ∉ t :=
+  fun h => absurd (ht _ h) (by decide)
+
+/-- a link: the first target letter returns the mode unchanged -/
+theorem targetLoop_link (k : EKind) (mode : Nat) (x : Char) (r : List Char)
+    (hl : k.link = true) (hx : isTargetCh x = true) :
+    targetLoop k mode (x :: r) = .ret (.ok mode) := by
+  rcases (isTargetCh_iff x).1 hx with rfl | rfl | rfl <;> simp [targetLoop, hl]
+
+/-- the first target letter that does not admit the entry kind skips the clause, whatever
+    follows it -/
+theorem targetLoop_skip_at (k : EKind) (mode : Nat) (t : List Char) (x : Char) (r : List Char)
+    (hl : k.link = false) (ht : ∀ y ∈ t, isTargetCh y = true ∧ letterOk k y = true)
+    (hx : x = 'd' ∨ x = 'f') (hbad : letterOk k x = false) :
+    targetLoop k mode (t ++ x :: r) = .skip (skipClause r) := by
+  induction t with
+  | nil =>
+    rcases hx with rfl | rfl
+    · have : k.dir = false := by simpa [letterOk] using hbad
+      simp [targetLoop, hl, this]
+    · have : k.file = false := by simpa [letterOk] using hbad
+      simp [targetLoop, hl, this]
+  | cons y t ih =>
+    have hy := (isTargetCh_iff y).1 (ht y (by simp)).1
+    have hay := (ht y (by simp)).2
+    have ih' := ih (fun z hz => ht z (by simp [hz]))
+    rcases hy with rfl | rfl | rfl
+    · have : k.dir = true := by simpa [letterOk] using hay
+      simp [targetLoop, hl, this, ih']
+    · have : k.file = true := by simpa [letterOk] using hay
+      simp [targetLoop, hl, this, ih']
+    · simp [targetLoop, hl, ih']
+
 theorem targetLoop_skips (k : EKind) (mode : Nat) (t r : List Char)
-    (ht : ∀ x ∈ t, isTargetCh x = true)
-    (hb : ∃ x ∈ t, k.link = true ∨ letterOk k x = false) :
-    targetLoop k mode (t ++ r) = .ret (.ok mode) := by
+    (hl : k.link = false) (ht : ∀ x ∈ t, isTargetCh x = true)
+    (hb : ∃ x ∈ t, letterOk k x = false) :
+    targetLoop k mode (t ++ r) = .skip (skipClause r) := by
   induction t with
   | nil => simp at hb
   | cons x t ih =>
     have hx := (isTargetCh_iff x).1 (ht x (by simp))
-    by_cases hl : k.link = true
-    · rcases hx with rfl | rfl | rfl <;> simp [targetLoop, hl]
-    · have hl' : k.link = false := by simpa using hl
-      by_cases hax : letterOk k x = true
-      · have hb' : ∃ y ∈ t, k.link = true ∨ letterOk k y = false := by
-          obtain ⟨y, hy, hy'⟩ := hb
-          rcases List.mem_cons.1 hy with rfl | hy
-          · simp [hl', hax] at hy'
-          · exact ⟨y, hy, hy'⟩
-        have ih' := ih (fun y hy => ht y (by simp [hy])) hb'
-        rcases hx with rfl | rfl | rfl
-        · have : k.dir = true := by simpa [letterOk] using hax
-          simp [targetLoop, hl', this, ih']
-        · have : k.file = true := by simpa [letterOk] using hax
-          simp [targetLoop, hl', this, ih']
-        · simp [targetLoop, hl', ih']
-      · rcases hx with rfl | rfl | rfl
-        · have : k.dir = false := by simpa [letterOk] using hax
-          simp [targetLoop, this]
-        · have : k.file = false := by simpa [letterOk] using hax
-          simp [targetLoop, this]
-        · simp [letterOk] at hax
+    have hcomma : ',' ∉ t := targetCh_no_comma t (fun y hy => ht y (by simp [hy]))
+    by_cases hax : letterOk k x = true
+    · have hb' : ∃ y ∈ t, letterOk k y = false := by
+        obtain ⟨y, hy, hy'⟩ := hb
+        rcases List.mem_cons.1 hy with rfl | hy
+        · simp [hax] at hy'
+        · exact ⟨y, hy, hy'⟩
+      have ih' := ih (fun y hy => ht y (by simp [hy])) hb'
+      rcases hx with rfl | rfl | rfl
+      · have : k.dir = true := by simpa [letterOk] using hax
+        simp [targetLoop, hl, this, ih']
+      · have : k.file = true := by simpa [letterOk] using hax
+        simp [targetLoop, hl, this, ih']
+      · simp [targetLoop, hl, ih']
+    · rcases hx with rfl | rfl | rfl
+      · have : k.dir = false := by simpa [letterOk] using hax
+        simp [targetLoop, hl, this, skipClause_append _ _ hcomma]
+      · have : k.file = false := by simpa [letterOk] using hax
+        simp [targetLoop, hl, this, skipClause_append _ _ hcomma]
+      · simp [letterOk] at hax
 
 theorem groupLoop_who (w r : List Char) (op : Char) (g : Nat)
     (hw : ∀ x ∈ w, isWhoCh x = true) (ho : isOpCh op = true) :
@@ -240,6 +302,36 @@ theorem parseExpr_shape {s : List Char} {cs : List Clause} (h : parseExpr s = so
   · right
     exact ⟨s', h3, by unfold parseExpr; rw [h4]; exact hcs⟩
 
+/-! ### commas -/
+
+theorem splitComma_no_comma (seg : List Char) (h : ',' ∉ seg) : splitComma seg = [seg] := by
+  induction seg with
+  | nil => rfl
+  | cons c seg ih =>
+    simp only [List.mem_cons, not_or] at h
+    have hc : ¬ c = ',' := fun hc => h.1 hc.symm
+    simp only [splitComma, if_neg hc, ih h.2]
+
+theorem splitComma_append_comma (seg r : List Char) (h : ',' ∉ seg) :
+    splitComma (seg ++ ',' :: r) = seg :: splitComma r := by
+  induction seg with
+  | nil => simp [splitComma]
+  | cons c seg ih =>
+    simp only [List.mem_cons, not_or] at h
+    have hc : ¬ c = ',' := fun hc => h.1 hc.symm
+    simp only [List.cons_append, splitComma, if_neg hc, ih h.2]
+
+theorem comma_not_mem_clause (t w ps : List Char) (op : Char)
+    (htc : ∀ x ∈ t, isTargetCh x = true) (hwc : ∀ x ∈ w, isWhoCh x = true)
+    (ho : isOpCh op = true) (hpc : ∀ x ∈ ps, isPermCh x = true) :
+    ',' ∉ t ++ ':' :: (w ++ op :: ps) := by
+  simp only [List.mem_append, List.mem_cons, not_or]
+  refine ⟨fun h => ?_, by decide, fun h => ?_, fun h => ?_, fun h => ?_⟩
+  · exact absurd (htc _ h) (by decide)
+  · exact absurd (hwc _ h) (by decide)
+  · subst h; exact absurd ho (by decide)
+  · exact absurd (hpc _ h) (by decide)
+
 /-! ### one iteration of the outer loop -/
 
 theorem symLoop_nil (k : EKind) (f mode : Nat) : symLoop k f mode [] = .ok mode := by
@@ -247,6 +339,13 @@ theorem symLoop_nil (k : EKind) (f mode : Nat) : symLoop k f mode [] = .ok mode 
 
 theorem symLoop_ret (k : EKind) (f mode : Nat) (cs : List Char) (o : Outcome Nat)
     (hcs : cs ≠ []) (hT : targetLoop k mode cs = .ret o) : symLoop k (f + 1) mode cs = o := by
+  cases cs with
+  | nil => exact absurd rfl hcs
+  | cons c cs => simp only [symLoop, hT]
+
+theorem symLoop_skip (k : EKind) (f mode : Nat) (cs R : List Char)
+    (hcs : cs ≠ []) (hT : targetLoop k mode cs = .skip R) :
+    symLoop k (f + 1) mode cs = symLoop k f mode R := by
   cases cs with
   | nil => exact absurd rfl hcs
   | cons c cs => simp only [symLoop, hT]
@@ -269,12 +368,23 @@ theorem symLoop_step (k : EKind) (f mode : Nat) (cs R R' rest' : List Char) (op 
 theorem applyOp_eq_apply (c : Clause) (m : Nat) :
     applyOp c.op (whoBits c.who) (permBits c.perms) m = c.apply m := rfl
 
-/-- the code's meaning of a well-formed expression: clauses are applied in order up to the first
-    one that does not apply to the entry -/
+theorem applyExpr_cons (k : EKind) (c : Clause) (l : List Clause) (m : Nat) :
+    applyExpr k (c :: l) m = applyExpr k l (if c.appliesTo k then c.apply m else m) := by
+  simp only [applyExpr, List.foldl_cons]
+
+theorem applyExpr_link (k : EKind) (cs : List Clause) (m : Nat) (hl : k.link = true) :
+    applyExpr k cs m = m := by
+  induction cs with
+  | nil => rfl
+  | cons c cs ih =>
+    have : c.appliesTo k = false := by simp [Clause.appliesTo, hl]
+    rw [applyExpr_cons, this]; exact ih
+
+/-- the (repaired) code's meaning of a well-formed expression is the grammar's: every clause that
+    applies to the entry is applied, in order; the others are skipped -/
 theorem symLoop_parsed (k : EKind) (cs : List Clause) :
     ∀ (sym : List Char) (fuel mode : Nat), parseExpr sym = some cs → sym.length < fuel →
-      symLoop k fuel mode sym =
-        .ok (applyExpr k (cs.takeWhile (fun c => c.appliesTo k)) mode) := by
+      symLoop k fuel mode sym = .ok (applyExpr k cs mode) := by
   induction cs with
   | nil =>
     intro sym fuel mode hp _
@@ -298,6 +408,7 @@ theorem symLoop_parsed (k : EKind) (cs : List Clause) :
       | cons x t => simp
     by_cases happ : c0.appliesTo k = true
     · -- the clause applies: it is executed, then the loop goes on after the comma
+      have happ' := happ
       rw [appliesTo_eq] at happ
       simp only [Bool.and_eq_true, Bool.not_eq_true', List.all_eq_true] at happ
       have hT : targetLoop k mode sym =
@@ -311,19 +422,7 @@ theorem symLoop_parsed (k : EKind) (cs : List Clause) :
       have hR' : c0.perms ++ tail ≠ [] := by simp [hpn]
       have hstep := fun rest' hP => symLoop_step k f mode sym _ _ rest' c0.op _ (permBits c0.perms)
         hsne hT hR hG (whoBits_ne_zero _ hw) hR' hP (permBits_ne_zero _ hpn)
-      have htw : (c0 :: cs0).takeWhile (fun c => c.appliesTo k) =
-          c0 :: cs0.takeWhile (fun c => c.appliesTo k) := by
-        rw [List.takeWhile_cons_of_pos]
-        rw [appliesTo_eq]
-        simp only [Bool.and_eq_true, Bool.not_eq_true', List.all_eq_true]
-        exact happ
-      have happ' : c0.appliesTo k = true := by
-        rw [appliesTo_eq]
-        simp only [Bool.and_eq_true, Bool.not_eq_true', List.all_eq_true]
-        exact happ
-      have hfold : ∀ l, applyExpr k (c0 :: l) mode = applyExpr k l (c0.apply mode) := by
-        intro l; simp only [applyExpr, List.foldl_cons, happ', if_true]
-      rw [htw, hfold]
+      rw [applyExpr_cons, happ', if_pos rfl]
       rcases htail with ⟨rfl, rfl⟩ | ⟨s', rfl, hs'⟩
       · rw [hstep [] (by rw [List.append_nil]; exact permsLoop_perms_end _ _ hpc), symLoop_nil]
         rfl
@@ -333,29 +432,44 @@ theorem symLoop_parsed (k : EKind) (cs : List Clause) :
         rw [hsym] at hf
         simp only [List.length_append, List.length_cons] at hf
         omega
-    · -- the clause does not apply: the whole call returns the mode reached so far
-      have hb : ∃ x ∈ c0.targets, k.link = true ∨ letterOk k x = false := by
-        rw [appliesTo_eq] at happ
-        by_cases hl : k.link = true
-        · cases hc' : c0.targets with
+    · have happ' : c0.appliesTo k = false := by simpa using happ
+      rw [applyExpr_cons, happ']
+      by_cases hl : k.link = true
+      · -- a link: the call returns the mode at the first target letter
+        have hT : targetLoop k mode sym = .ret (.ok mode) := by
+          rw [hsym, hseg]
+          cases hc' : c0.targets with
           | nil => exact absurd hc' ht
-          | cons x t => exact ⟨x, by simp, .inl hl⟩
-        · simp only [Bool.not_eq_true] at hl
-          simp only [hl, Bool.not_false, Bool.true_and, List.all_eq_true] at happ
+          | cons x t => exact targetLoop_link k mode x _ hl (htc x (by simp [hc']))
+        rw [symLoop_ret k f mode sym _ hsne hT]
+        exact congrArg _ (applyExpr_link k cs0 mode hl).symm
+      · -- the clause is for another kind: it is skipped, the loop goes on after the comma
+        have hl' : k.link = false := by simpa using hl
+        have hb : ∃ x ∈ c0.targets, letterOk k x = false := by
+          rw [appliesTo_eq] at happ
+          simp only [hl', Bool.not_false, Bool.true_and, List.all_eq_true] at happ
           apply Classical.byContradiction
           intro hne
           apply happ
           intro x hx
           cases hax : letterOk k x with
           | true => rfl
-          | false => exact absurd ⟨x, hx, .inr hax⟩ hne
-      have hT : targetLoop k mode sym = .ret (.ok mode) := by
-        rw [hsym, hseg, List.append_assoc]
-        exact targetLoop_skips k mode _ _ htc hb
-      have htw : (c0 :: cs0).takeWhile (fun c => c.appliesTo k) = [] :=
-        List.takeWhile_cons_of_neg (p := fun (c : Clause) => c.appliesTo k) happ
-      rw [symLoop_ret k f mode sym _ hsne hT, htw]
-      rfl
+          | false => exact absurd ⟨x, hx, hax⟩ hne
+        have hcomma : ',' ∉ ':' :: (c0.who ++ c0.op :: c0.perms) :=
+          comma_not_mem_clause [] c0.who c0.perms c0.op (by simp) hwc ho hpc
+        have hT : targetLoop k mode sym =
+            .skip (skipClause (':' :: (c0.who ++ c0.op :: c0.perms) ++ tail)) := by
+          rw [hsym, hseg, List.append_assoc]
+          exact targetLoop_skips k mode _ _ hl' htc hb
+        rw [symLoop_skip k f mode sym _ hsne hT]
+        rcases htail with ⟨rfl, rfl⟩ | ⟨s', rfl, hs'⟩
+        · rw [List.append_nil, skipClause_no_comma _ hcomma, symLoop_nil]
+          rfl
+        · rw [skipClause_append_comma _ _ hcomma]
+          apply ih s' f _ hs'
+          rw [hsym] at hf
+          simp only [List.length_append, List.length_cons] at hf
+          omega
 
 /-! ### `Chmod.mode` on well-formed expressions -/
 
@@ -366,29 +480,14 @@ theorem parseExpr_ne_nil {s : List Char} {cs : List Clause} (h : parseExpr s = s
 
 theorem mode_parsed (k : EKind) (cur : Nat) (sym : List Char) (cs : List Clause)
     (hp : parseExpr sym = some cs) :
-    Chmod.mode k cur 0 sym = .ok (applyExpr k (cs.takeWhile (fun c => c.appliesTo k)) cur) := by
+    Chmod.mode k cur 0 sym = .ok (applyExpr k cs cur) := by
   unfold Chmod.mode
   rw [if_neg (by simp), if_neg (parseExpr_ne_nil hp)]
   exact symLoop_parsed k cs sym _ cur hp (Nat.lt_succ_self _)
 
-theorem takeWhile_all {α} (p : α → Bool) (l : List α) (h : ∀ x ∈ l, p x = true) :
-    l.takeWhile p = l := by
-  induction l with
-  | nil => rfl
-  | cons a l ih =>
-    rw [List.takeWhile_cons_of_pos (h a (by simp)), ih (fun x hx => h x (by simp [hx]))]
-
-theorem takeWhile_none {α} (p : α → Bool) (l : List α) (h : ∀ x ∈ l, p x = false) :
-    l.takeWhile p = [] := by
-  cases l with
-  | nil => rfl
-  | cons a l => exact List.takeWhile_cons_of_neg (by simp [h a (by simp)])
-
 theorem mode_parsed_link (k : EKind) (cur : Nat) (sym : List Char) (cs : List Clause)
     (hl : k.link = true) (hp : parseExpr sym = some cs) : Chmod.mode k cur 0 sym = .ok cur := by
-  rw [mode_parsed k cur sym cs hp, takeWhile_none]
-  · rfl
-  · intro c _; simp [Clause.appliesTo, hl]
+  rw [mode_parsed k cur sym cs hp, applyExpr_link k cs cur hl]
 
 theorem revokingMode_iff (old new : Nat) :
     revokingMode old new = true ↔
@@ -449,7 +548,32 @@ theorem targetLoop_ret_cases (k : EKind) (mode : Nat) (cs : List Char) (o : Outc
       · cases h; exact .inr rfl
       · split at h
         · cases h
-        · exact ih h
+        · split at h
+          · cases h
+          · exact ih h
+
+/-- what the head letter of a non-skipped, non-final step of the Target loop is -/
+theorem target_head_ok (k : EKind) (c : Char)
+    (hc : ¬ (c ≠ 'd' ∧ c ≠ 'f' ∧ c ≠ 'a' ∧ c ≠ ':'))
+    (hm : ¬ ((c = 'd' ∧ (!k.dir) = true) ∨ (c = 'f' ∧ (!k.file) = true))) (hc' : ¬ c = ':') :
+    isTargetCh c = true ∧ letterOk k c = true := by
+  by_cases h1 : c = 'd'
+  · subst h1
+    have : k.dir = true := by
+      cases hd : k.dir with
+      | true => rfl
+      | false => exact absurd (.inl ⟨rfl, by simp [hd]⟩) hm
+    exact ⟨by decide, by simp [letterOk, this]⟩
+  · by_cases h2 : c = 'f'
+    · subst h2
+      have : k.file = true := by
+        cases hd : k.file with
+        | true => rfl
+        | false => exact absurd (.inr ⟨rfl, by simp [hd]⟩) hm
+      exact ⟨by decide, by simp [letterOk, this]⟩
+    · by_cases h3 : c = 'a'
+      · subst h3; exact ⟨by decide, by simp [letterOk]⟩
+      · exact absurd ⟨h1, h2, h3, hc'⟩ hc
 
 theorem targetLoop_toGroup_shape (k : EKind) (mode : Nat) (cs r : List Char)
     (h : targetLoop k mode cs = .toGroup r) :
@@ -464,24 +588,61 @@ theorem targetLoop_toGroup_shape (k : EKind) (mode : Nat) (cs r : List Char)
       split at h
       · cases h
       · split at h
-        · rename_i hc'
+        · cases h
+        · rename_i hm
+          split at h
+          · rename_i hc'
+            cases h
+            exact ⟨[], by simp [hc'], by simp⟩
+          · rename_i hc'
+            obtain ⟨t, ht, htc⟩ := ih h
+            refine ⟨c :: t, by simp [ht], ?_⟩
+            intro x hx
+            rcases List.mem_cons.1 hx with rfl | hx
+            · exact (target_head_ok k x hc hm hc').1
+            · exact htc x hx
+
+/-- a skip happens at the first target letter that does not admit the entry kind: before it only
+    admitting target letters; what follows it is NOT inspected, only searched for the next comma -/
+theorem targetLoop_skip_shape (k : EKind) (mode : Nat) (cs R : List Char)
+    (h : targetLoop k mode cs = .skip R) :
+    k.link = false ∧ ∃ t x r, cs = t ++ x :: r ∧
+      (∀ y ∈ t, isTargetCh y = true ∧ letterOk k y = true) ∧
+      (x = 'd' ∨ x = 'f') ∧ letterOk k x = false ∧ R = skipClause r := by
+  induction cs with
+  | nil => simp only [targetLoop] at h; cases h
+  | cons c cs ih =>
+    simp only [targetLoop] at h
+    split at h
+    · cases h
+    · rename_i hc
+      split at h
+      · cases h
+      · rename_i hl
+        split at h
+        · rename_i hm
           cases h
-          exact ⟨[], by simp [hc'], by simp⟩
-        · rename_i hc'
-          obtain ⟨t, ht, htc⟩ := ih h
-          refine ⟨c :: t, by simp [ht], ?_⟩
-          intro x hx
-          rcases List.mem_cons.1 hx with rfl | hx
-          · rw [isTargetCh_iff]
-            simp only [ne_eq, not_and, Classical.not_not] at hc
-            by_cases h1 : x = 'd'
+          refine ⟨by simpa using hl, [], c, cs, rfl, by simp, ?_, ?_, rfl⟩
+          · rcases hm with ⟨h1, _⟩ | ⟨h1, _⟩
             · exact .inl h1
-            · by_cases h2 : x = 'f'
-              · exact .inr (.inl h2)
-              · by_cases h3 : x = 'a'
-                · exact .inr (.inr h3)
-                · exact absurd (hc h1 h2 h3) hc'
-          · exact htc x hx
+            · exact .inr h1
+          · rcases hm with ⟨h1, h2⟩ | ⟨h1, h2⟩
+            · subst h1
+              have : k.dir = false := by simpa using h2
+              simp [letterOk, this]
+            · subst h1
+              have : k.file = false := by simpa using h2
+              simp [letterOk, this]
+        · rename_i hm
+          split at h
+          · cases h
+          · rename_i hc'
+            obtain ⟨hl', t, x, r, h1, h2, h3, h4, h5⟩ := ih h
+            refine ⟨hl', c :: t, x, r, by simp [h1], ?_, h3, h4, h5⟩
+            intro y hy
+            rcases List.mem_cons.1 hy with rfl | hy
+            · exact target_head_ok k y hc hm hc'
+            · exact h2 y hy
 
 theorem groupLoop_ret_err (cs : List Char) (g : Nat) (o : Outcome Nat)
     (h : groupLoop cs g = .ret o) : ∃ e, o = .err e := by
@@ -589,23 +750,32 @@ theorem foldl_whoStep_le (w : List Char) (g : Nat) (hg : g ≤ 511) : w.foldl wh
         · split <;> decide
     omega
 
-/-- One iteration of the outer loop on ARBITRARY non-empty input: it reports an error, or returns
-    the mode unchanged, or has read a complete well-formed clause (with a possibly empty target
-    list), applied it, and continues after the comma (or stops at the end of the text). -/
-theorem symLoop_succ_cases (k : EKind) (f mode : Nat) (cs : List Char) (hcs : cs ≠ []) :
-    (∃ e, symLoop k (f + 1) mode cs = .err e) ∨ symLoop k (f + 1) mode cs = .ok mode ∨
-    ∃ t w op ps rest', (∀ x ∈ t, isTargetCh x = true) ∧ w ≠ [] ∧ (∀ x ∈ w, isWhoCh x = true) ∧
+/-- One iteration of the outer loop on ARBITRARY non-empty input (the same for every amount of
+    fuel): it reports an error, or returns the mode unchanged, or has read a complete well-formed
+    clause (with a possibly empty target list), applied it, and continues after the comma (or stops
+    at the end of the text), or has met a target letter for another kind of entry and continues
+    after the next comma without looking at what it skips. -/
+theorem symLoop_iter_cases (k : EKind) (mode : Nat) (cs : List Char) (hcs : cs ≠ []) :
+    (∃ e, ∀ f, symLoop k (f + 1) mode cs = .err e) ∨ (∀ f, symLoop k (f + 1) mode cs = .ok mode) ∨
+    (∃ t w op ps rest', (∀ x ∈ t, isTargetCh x = true) ∧ w ≠ [] ∧ (∀ x ∈ w, isWhoCh x = true) ∧
       isOpCh op = true ∧ ps ≠ [] ∧ (∀ x ∈ ps, isPermCh x = true) ∧
       ((cs = t ++ ':' :: (w ++ op :: ps) ∧ rest' = []) ∨
         cs = t ++ ':' :: (w ++ op :: (ps ++ ',' :: rest'))) ∧
-      symLoop k (f + 1) mode cs =
-        symLoop k f (applyOp op (whoBits w) (permBits ps) mode) rest' := by
+      ∀ f, symLoop k (f + 1) mode cs =
+        symLoop k f (applyOp op (whoBits w) (permBits ps) mode) rest') ∨
+    (k.link = false ∧ ∃ t x r, cs = t ++ x :: r ∧
+      (∀ y ∈ t, isTargetCh y = true ∧ letterOk k y = true) ∧
+      (x = 'd' ∨ x = 'f') ∧ letterOk k x = false ∧
+      ∀ f, symLoop k (f + 1) mode cs = symLoop k f mode (skipClause r)) := by
   cases hT : targetLoop k mode cs with
   | ret o =>
-    rw [symLoop_ret k f mode cs o hcs hT]
     rcases targetLoop_ret_cases k mode cs o hT with ⟨e, rfl⟩ | rfl
-    · exact .inl ⟨e, rfl⟩
-    · exact .inr (.inl rfl)
+    · exact .inl ⟨e, fun f => symLoop_ret k f mode cs _ hcs hT⟩
+    · exact .inr (.inl fun f => symLoop_ret k f mode cs _ hcs hT)
+  | skip R =>
+    obtain ⟨hl, t, x, r, h1, h2, h3, h4, rfl⟩ := targetLoop_skip_shape k mode cs R hT
+    exact .inr (.inr (.inr ⟨hl, t, x, r, h1, h2, h3, h4,
+      fun f => symLoop_skip k f mode cs _ hcs hT⟩))
   | toGroup R =>
     obtain ⟨t, hcs', htc⟩ := targetLoop_toGroup_shape k mode cs R hT
     obtain ⟨c, cs1, rfl⟩ : ∃ c cs1, cs = c :: cs1 := by
@@ -613,39 +783,57 @@ theorem symLoop_succ_cases (k : EKind) (f mode : Nat) (cs : List Char) (hcs : cs
       | nil => exact absurd rfl hcs
       | cons c cs1 => exact ⟨c, cs1, rfl⟩
     cases R with
-    | nil => right; left; simp only [symLoop, hT]
+    | nil => right; left; intro f; simp only [symLoop, hT]
     | cons x R =>
       cases hG : groupLoop (x :: R) 0 with
       | ret o =>
         obtain ⟨e, rfl⟩ := groupLoop_ret_err _ _ _ hG
-        left; exact ⟨e, by simp only [symLoop, hT, hG]⟩
+        left; exact ⟨e, fun f => by simp only [symLoop, hT, hG]⟩
       | toPerms op g R' =>
         obtain ⟨w, hR, hwc, ho, hg⟩ := groupLoop_toPerms_shape _ _ _ _ _ hG
         by_cases hg0 : g = 0
-        · left; exact ⟨.invalidChmodGroup, by simp only [symLoop, hT, hG, if_pos hg0]⟩
+        · left; exact ⟨.invalidChmodGroup, fun f => by simp only [symLoop, hT, hG, if_pos hg0]⟩
         · have hw : w ≠ [] := by
             intro hw; subst hw; exact hg0 hg
           cases R' with
-          | nil => right; left; simp only [symLoop, hT, hG, if_neg hg0]
+          | nil => right; left; intro f; simp only [symLoop, hT, hG, if_neg hg0]
           | cons y R' =>
             cases hP : permsLoop (y :: R') 0 with
             | ret o =>
               obtain ⟨e, rfl⟩ := permsLoop_ret_err _ _ _ hP
-              left; exact ⟨e, by simp only [symLoop, hT, hG, hP, if_neg hg0]⟩
+              left; exact ⟨e, fun f => by simp only [symLoop, hT, hG, hP, if_neg hg0]⟩
             | done p rest' =>
               obtain ⟨ps, hpc, hp, hshape⟩ := permsLoop_done_shape _ _ _ _ hP
               by_cases hp0 : p = 0
               · left; exact ⟨.invalidChmodPermissions,
-                  by simp only [symLoop, hT, hG, hP, if_neg hg0, if_pos hp0]⟩
+                  fun f => by simp only [symLoop, hT, hG, hP, if_neg hg0, if_pos hp0]⟩
               · have hps : ps ≠ [] := by
                   intro hps; subst hps; exact hp0 hp
-                right; right
+                right; right; left
                 refine ⟨t, w, op, ps, rest', htc, hw, hwc, ho, hps, hpc, ?_, ?_⟩
                 · rcases hshape with ⟨h1, h2⟩ | h1
                   · left; exact ⟨by rw [hcs', hR, h1], h2⟩
                   · right; rw [hcs', hR, h1]
-                · rw [symLoop_step k f mode _ _ _ rest' op g p hcs hT (by simp) hG hg0 (by simp)
+                · intro f
+                  rw [symLoop_step k f mode _ _ _ rest' op g p hcs hT (by simp) hG hg0 (by simp)
                     hP hp0, whoBits_eq, permBits_eq, ← hg, ← hp]
+
+/-- `symLoop_iter_cases` for one given amount of fuel -/
+theorem symLoop_succ_cases (k : EKind) (f mode : Nat) (cs : List Char) (hcs : cs ≠ []) :
+    (∃ e, symLoop k (f + 1) mode cs = .err e) ∨ symLoop k (f + 1) mode cs = .ok mode ∨
+    (∃ t w op ps rest', (∀ x ∈ t, isTargetCh x = true) ∧ w ≠ [] ∧ (∀ x ∈ w, isWhoCh x = true) ∧
+      isOpCh op = true ∧ ps ≠ [] ∧ (∀ x ∈ ps, isPermCh x = true) ∧
+      ((cs = t ++ ':' :: (w ++ op :: ps) ∧ rest' = []) ∨
+        cs = t ++ ':' :: (w ++ op :: (ps ++ ',' :: rest'))) ∧
+      symLoop k (f + 1) mode cs =
+        symLoop k f (applyOp op (whoBits w) (permBits ps) mode) rest') ∨
+    (∃ R, symLoop k (f + 1) mode cs = symLoop k f mode R) := by
+  rcases symLoop_iter_cases k mode cs hcs with ⟨e, he⟩ | he |
+    ⟨t, w, op, ps, rest', h1, h2, h3, h4, h5, h6, h7, he⟩ | ⟨_, _, _, r, _, _, _, _, he⟩
+  · exact .inl ⟨e, he f⟩
+  · exact .inr (.inl (he f))
+  · exact .inr (.inr (.inl ⟨t, w, op, ps, rest', h1, h2, h3, h4, h5, h6, h7, he f⟩))
+  · exact .inr (.inr (.inr ⟨_, he f⟩))
 
 /-- every accepted run keeps the bits above the nine permission bits, for arbitrary text -/
 theorem symLoop_keeps (k : EKind) (cur : Nat) :
@@ -660,13 +848,16 @@ theorem symLoop_keeps (k : EKind) (cur : Nat) :
     intro mode cs m h1 h2 h
     by_cases hcs : cs = []
     · subst hcs; rw [symLoop_nil] at h; cases h; exact ⟨h1, h2⟩
-    · rcases symLoop_succ_cases k f mode cs hcs with ⟨e, he⟩ | he | ⟨t, w, op, ps, rest', _, _, hwc, _, _, _, _, he⟩
+    · rcases symLoop_succ_cases k f mode cs hcs with ⟨e, he⟩ | he |
+        ⟨t, w, op, ps, rest', _, _, hwc, _, _, _, _, he⟩ | ⟨R, he⟩
       · rw [he] at h; cases h
       · rw [he] at h; cases h; exact ⟨h1, h2⟩
       · rw [he] at h
         have hk := applyOp_keeps op (whoBits w) (permBits ps) mode
           (by rw [whoBits_eq]; exact foldl_whoStep_le w 0 (by omega)) h2
         exact ih _ rest' m (by rw [hk.1, h1]) hk.2 h
+      · rw [he] at h
+        exact ih _ R m h1 h2 h
 
 theorem mode_keeps (k : EKind) (cur : Nat) (sym : List Char) (m : Nat)
     (hcur : cur < 2 ^ 32) (h : Chmod.mode k cur 0 sym = .ok m) (hne : sym ≠ []) :
@@ -675,51 +866,86 @@ theorem mode_keeps (k : EKind) (cur : Nat) (sym : List Char) (m : Nat)
   rw [if_neg (by simp), if_neg hne] at h
   exact symLoop_keeps k cur _ cur sym m rfl hcur h
 
+/-! ### the fuel is irrelevant once it exceeds the length of the text -/
+
+theorem symLoop_fuel (k : EKind) :
+    ∀ (f f' mode : Nat) (cs : List Char), cs.length < f → cs.length < f' →
+      symLoop k f mode cs = symLoop k f' mode cs := by
+  intro f
+  induction f with
+  | zero => intro f' mode cs h; omega
+  | succ f ih =>
+    intro f' mode cs h h'
+    obtain ⟨g, rfl⟩ : ∃ g, f' = g + 1 := ⟨f' - 1, by omega⟩
+    by_cases hcs : cs = []
+    · subst hcs; rw [symLoop_nil, symLoop_nil]
+    · rcases symLoop_iter_cases k mode cs hcs with ⟨e, he⟩ | he |
+        ⟨t, w, op, ps, rest', _, _, _, _, _, _, hshape, he⟩ | ⟨_, t, x, r, hshape, _, _, _, he⟩
+      · rw [he f, he g]
+      · rw [he f, he g]
+      · rw [he f, he g]
+        have hlen : rest'.length < cs.length := by
+          rcases hshape with ⟨h1, h2⟩ | h1
+          · subst h2; cases cs with
+            | nil => exact absurd rfl hcs
+            | cons _ _ => simp
+          · rw [h1]; simp only [List.length_append, List.length_cons]; omega
+        exact ih g _ rest' (by omega) (by omega)
+      · rw [he f, he g]
+        have hlen : (skipClause r).length < cs.length := by
+          have := skipClause_length_le r
+          rw [hshape]; simp only [List.length_append, List.length_cons]; omega
+        exact ih g _ _ (by omega) (by omega)
+
+/-- `Chmod.mode` as a run of the loop with any sufficient fuel -/
+theorem mode_eq_symLoop (k : EKind) (cur : Nat) (sym : List Char) (hne : sym ≠ []) (f : Nat)
+    (hf : sym.length < f) : Chmod.mode k cur 0 sym = symLoop k f cur sym := by
+  unfold Chmod.mode
+  rw [if_neg (by simp), if_neg hne]
+  exact symLoop_fuel k _ _ cur sym (Nat.lt_succ_self _) hf
+
+/-! ### a first clause for another kind is skipped unread -/
+
+/-- Exact behaviour on a skipped first clause, for ARBITRARY text after the offending target
+    letter: the call means what the text after the next comma means (nothing when there is no
+    comma, or nothing after it). -/
+theorem mode_skip_first (k : EKind) (cur : Nat) (t : List Char) (x : Char) (r : List Char)
+    (hl : k.link = false) (ht : ∀ y ∈ t, isTargetCh y = true ∧ letterOk k y = true)
+    (hx : x = 'd' ∨ x = 'f') (hbad : letterOk k x = false) :
+    Chmod.mode k cur 0 (t ++ x :: r) =
+      if skipClause r = [] then .ok cur else Chmod.mode k cur 0 (skipClause r) := by
+  have hne : t ++ x :: r ≠ [] := by simp
+  have hlen := skipClause_length_le r
+  rw [mode_eq_symLoop k cur _ hne ((t ++ x :: r).length + 1) (Nat.lt_succ_self _),
+    symLoop_skip k _ cur _ _ hne (targetLoop_skip_at k cur t x r hl ht hx hbad)]
+  split
+  · rename_i h; rw [h, symLoop_nil]
+  · rename_i h
+    rw [mode_eq_symLoop k cur _ h (t ++ x :: r).length]
+    simp only [List.length_append, List.length_cons]; omega
+
 /-! ### malformed first clause -/
 
-theorem splitComma_no_comma (seg : List Char) (h : ',' ∉ seg) : splitComma seg = [seg] := by
-  induction seg with
-  | nil => rfl
-  | cons c seg ih =>
-    simp only [List.mem_cons, not_or] at h
-    have hc : ¬ c = ',' := fun hc => h.1 hc.symm
-    simp only [splitComma, if_neg hc, ih h.2]
-
-theorem splitComma_append_comma (seg r : List Char) (h : ',' ∉ seg) :
-    splitComma (seg ++ ',' :: r) = seg :: splitComma r := by
-  induction seg with
-  | nil => simp [splitComma]
-  | cons c seg ih =>
-    simp only [List.mem_cons, not_or] at h
-    have hc : ¬ c = ',' := fun hc => h.1 hc.symm
-    simp only [List.cons_append, splitComma, if_neg hc, ih h.2]
-
-theorem comma_not_mem_clause (t w ps : List Char) (op : Char)
-    (htc : ∀ x ∈ t, isTargetCh x = true) (hwc : ∀ x ∈ w, isWhoCh x = true)
-    (ho : isOpCh op = true) (hpc : ∀ x ∈ ps, isPermCh x = true) :
-    ',' ∉ t ++ ':' :: (w ++ op :: ps) := by
-  simp only [List.mem_append, List.mem_cons, not_or]
-  refine ⟨fun h => ?_, by decide, fun h => ?_, fun h => ?_, fun h => ?_⟩
-  · exact absurd (htc _ h) (by decide)
-  · exact absurd (hwc _ h) (by decide)
-  · subst h; exact absurd ho (by decide)
-  · exact absurd (hpc _ h) (by decide)
-
 /-- a malformed first clause is reported, or nothing is changed, or the text starts with `:`
-    (empty target list, which the code accepts as "all") -/
+    (empty target list, which the code accepts as "all"), or the clause is skipped unread at a
+    target letter for another kind and the call means what the text after the next comma means -/
 theorem mode_malformed_any (k : EKind) (cur : Nat) (sym : List Char) (hne : sym ≠ [])
     (hmal : parseClause ((splitComma sym).headD []) = none) :
     (∃ e, Chmod.mode k cur 0 sym = .err e) ∨ Chmod.mode k cur 0 sym = .ok cur ∨
-      ∃ rest, sym = ':' :: rest := by
-  unfold Chmod.mode
-  rw [if_neg (by simp), if_neg hne]
-  rcases symLoop_succ_cases k sym.length cur sym hne with he | he |
-    ⟨t, w, op, ps, rest', htc, hw, hwc, ho, hps, hpc, hshape, _⟩
-  · exact .inl he
-  · exact .inr (.inl he)
+      (∃ rest, sym = ':' :: rest) ∨
+      (k.link = false ∧ ∃ t x r, sym = t ++ x :: r ∧
+        (∀ y ∈ t, isTargetCh y = true ∧ letterOk k y = true) ∧ (x = 'd' ∨ x = 'f') ∧
+        letterOk k x = false ∧ skipClause r ≠ [] ∧
+        Chmod.mode k cur 0 sym = Chmod.mode k cur 0 (skipClause r)) := by
+  rcases symLoop_iter_cases k cur sym hne with ⟨e, he⟩ | he |
+    ⟨t, w, op, ps, rest', htc, hw, hwc, ho, hps, hpc, hshape, _⟩ | ⟨hl, t, x, r, h1, h2, h3, h4, _⟩
+  · left; refine ⟨e, ?_⟩
+    unfold Chmod.mode; rw [if_neg (by simp), if_neg hne]; exact he _
+  · right; left
+    unfold Chmod.mode; rw [if_neg (by simp), if_neg hne]; exact he _
   · by_cases ht : t = []
     · subst ht
-      right; right
+      right; right; left
       rcases hshape with ⟨h1, _⟩ | h1 <;> exact ⟨_, by rw [h1]; rfl⟩
     · exfalso
       have hcomma := comma_not_mem_clause t w ps op htc hwc ho hpc
@@ -731,19 +957,49 @@ theorem mode_malformed_any (k : EKind) (cur : Nat) (sym : List Char) (hne : sym 
           rw [this, splitComma_append_comma _ _ hcomma]; rfl
       rw [hhead, parseClause_build t w ps op ht htc hw hwc ho hps hpc] at hmal
       cases hmal
+  · have hm := mode_skip_first k cur t x r hl h2 h3 h4
+    rw [← h1] at hm
+    by_cases hs : skipClause r = []
+    · right; left; rw [hm, if_pos hs]
+    · right; right; right
+      exact ⟨hl, t, x, r, h1, h2, h3, h4, hs, by rw [hm, if_neg hs]⟩
 
-/-- a malformed first clause with a non-empty target list is reported, or nothing is changed -/
+/-- a malformed first clause whose (non-empty) run of leading target letters admits the entry kind
+    is reported, or nothing is changed -/
 theorem mode_malformed (k : EKind) (cur : Nat) (sym : List Char)
     (hmal : parseClause ((splitComma sym).headD []) = none)
-    (htl : ∃ c rest, sym = c :: rest ∧ (c = 'd' ∨ c = 'f' ∨ c = 'a')) :
+    (htl : ∃ c rest, sym = c :: rest ∧ (c = 'd' ∨ c = 'f' ∨ c = 'a'))
+    (hok : ∀ y ∈ sym.takeWhile isTargetCh, letterOk k y = true) :
     (∃ e, Chmod.mode k cur 0 sym = .err e) ∨ Chmod.mode k cur 0 sym = .ok cur := by
   obtain ⟨c, rest, hsym, hc⟩ := htl
-  rcases mode_malformed_any k cur sym (by rw [hsym]; simp) hmal with h | h | ⟨r, h⟩
+  rcases mode_malformed_any k cur sym (by rw [hsym]; simp) hmal with h | h | ⟨r, h⟩ |
+    ⟨_, t, x, r, h1, h2, h3, h4, _⟩
   · exact .inl h
   · exact .inr h
   · rw [hsym] at h
     have : c = ':' := (List.cons.inj h).1
     subst this
     exact absurd hc (by decide)
+  · exfalso
+    have hxt : isTargetCh x = true := by rcases h3 with rfl | rfl <;> decide
+    have hmem : x ∈ sym.takeWhile isTargetCh := by
+      rw [h1, List.takeWhile_append_of_pos (fun y hy => (h2 y hy).1),
+        List.takeWhile_cons_of_pos hxt]
+      simp
+    rw [hok x hmem] at h4
+    cases h4
+
+/-- a link is never altered, whatever the text: error or unchanged -/
+theorem mode_link (k : EKind) (cur : Nat) (sym : List Char) (hl : k.link = true) (hne : sym ≠ []) :
+    (∃ e, Chmod.mode k cur 0 sym = .err e) ∨ Chmod.mode k cur 0 sym = .ok cur := by
+  obtain ⟨c, cs, rfl⟩ : ∃ c cs, sym = c :: cs := by
+    cases sym with
+    | nil => exact absurd rfl hne
+    | cons c cs => exact ⟨c, cs, rfl⟩
+  unfold Chmod.mode
+  rw [if_neg (by simp), if_neg hne]
+  by_cases hc : c ≠ 'd' ∧ c ≠ 'f' ∧ c ≠ 'a' ∧ c ≠ ':'
+  · left; exact ⟨.invalidChmodTarget, by simp only [symLoop, targetLoop, if_pos hc]⟩
+  · right; simp only [symLoop, targetLoop, if_neg hc, hl, if_true]
 
 end Rivia.Lemmas
